@@ -208,9 +208,11 @@ def run(ck):
     no_deferred_callbacks(ck, F, "C02-O10", allowed=("OwnThreadHandler::process",))
     ck.rule("C02-O11", "what all pipelines of the process share is left under its own lock: the standard streams are written through stdio / iostream calls that take the stream's lock, and no builder "
                        "method hands out a handler object from process-wide storage")
-    from rules.oth import process_wide_streams_locked, builders_create_fresh_handlers
+    from rules.oth import process_wide_streams_locked, builders_create_fresh_handlers, shared_instances_guard_their_state
     process_wide_streams_locked(ck, F, "C02-O11")
     builders_create_fresh_handlers(ck, F, "C02-O11")
+    ck.rule("C02-O12", "a handler class with a process-wide instance() keeps per-message state only under a lock of its own (its users lock independently)")
+    shared_instances_guard_their_state(ck, F, "C02-O12")
     # a message that a sink hands on through a queued signal (SignalSink with a receiver in another thread) needs LogMessage to be a
     # registered meta-type whenever a logger exists - in synchronous mode the emitting thread is whichever thread logs
     ck.rule("C02-O8", "qRegisterMetaType<LogMessage> runs on every path of a constructor every logger goes through (OwnThreadHandler, SignalSink), not only when asynchronous mode is switched on")
